@@ -116,7 +116,7 @@ Proof.
 Qed.
 
 (* module links: every id is non-zero and names a node *)
-Definition link_ok (ns : list node) (p : Z * float) : Prop := fst p <> 0 /\ In (fst p) (map n_id ns).
+Definition link_ok (ns : list node) (p : Z * float) : Prop := In (fst p) (map n_id ns).
 
 Lemma node_with_id_some : forall id ns, In id (map n_id ns) -> exists nd, node_with_id id ns = Some nd /\ n_id nd = id.
 Proof.
@@ -130,9 +130,9 @@ Lemma yr_links_lib : forall ns l i, Forall (link_ok ns) l ->
   yr_links ns (map (yaml_lib il) (y_links i l)) = Ok (map (fun p => (fst p, 1%float)) l).
 Proof.
   induction l as [|[id w] l IH]; intros i H; [reflexivity|].
-  inversion H as [|? ? [Hz Hin] H2]; subst. simpl in Hz, Hin.
+  inversion H as [|? ? Hin H2]; subst. unfold link_ok in Hin. simpl in Hin.
   cbn [y_links map yaml_lib fst snd yr_links as_map bind lookup String.eqb Ascii.eqb Bool.eqb to_int].
-  unfold node_with_id_nz. destruct (Z.eqb id 0) eqn:E; [apply Z.eqb_eq in E; contradiction|].
+  unfold node_with_id_nz.
   destruct (node_with_id_some id ns Hin) as (nd & -> & Hid). rewrite IH by exact H2. cbn [bind]. now rewrite Hid.
 Qed.
 
